@@ -12,4 +12,5 @@ run BornoProc BornoProc_broken.cfg ReplLineIndependence
 run FamCalls Sanity_WhileSwallowsReturn.cfg ReturnUnwindsToCall
 run FamFaults Sanity_ErrorDoesNotStop.cfg "NoEffectAfterError\|FirstDiagOnly"
 run FamArrays Sanity_RemoveShiftsInPlace.cfg NativesArePure
+run FamCalls Sanity_ReclaimAlways.cfg "Monotone\|ScopesWellFormed"
 exit $fail
